@@ -343,6 +343,24 @@ def small_comp_worlds(nfiles, ncomps):
         yield w
 
 
+def diamond_worlds():
+    """depth-three worlds with a shared file: A imports a component (or a units) from B that uses two units of B, each a leaf
+    or an import from C; the two units of C are leaves, imports from D or refer to each other"""
+    bshapes = [None, ('f2.cellml', 'u0'), ('f2.cellml', 'u1')]
+    c0 = [U('u0'), U('u0', imp=('f3.cellml', 'u0')), U('u0', kids=['u1'])]
+    c1 = [U('u1'), U('u1', imp=('f3.cellml', 'u0')), U('u1', imp=('f3.cellml', 'u1'))]
+    for s1, s2, a, b, top in itertools.product(bshapes, bshapes, c0, c1, ('comp', 'units')):
+        fb_units = [U('ub0', imp=s1), U('ub1', imp=s2)]
+        if top == 'comp':
+            fa = model([], [C('x', imp=('f1.cellml', 'x'))])
+            fb = model(fb_units, [C('x', units=['ub0', 'ub1'])])
+        else:
+            fa = model([U('x', imp=('f1.cellml', 'x'))])
+            fb = model(fb_units + [U('x', kids=['ub0', 'ub1'])])
+        import copy
+        yield {'f0.cellml': fa, 'f1.cellml': fb, 'f2.cellml': model([copy.deepcopy(a), copy.deepcopy(b)]), 'f3.cellml': model([U('u0'), U('u1')])}
+
+
 def random_world(rng, nfiles=None, cyclic=0.15):
     nfiles = nfiles or rng.randint(2, 5)
     files = ['f%d.cellml' % i for i in range(nfiles)]
